@@ -45,3 +45,19 @@ Example C08_example_truncated_tail :
   run_script 64 [Dgram 1 d1; Dgram 2 d2] =
   Ok [(MMs (mkMeasure 7 3 2 [5; 6]), 1); (MRdy (mkReady 9), 2); (MOther (mkRaw 255 0 0 [0; 0; 96]), 2)].
 Proof. vm_compute. reflexivity. Qed.
+
+(* translator obligations (lib/gen_statespace.py reads the structs, statics and mutable bindings of the
+   modelled code on every run): the code has the state the model represents and no other *)
+From Portus Require Import StateTie.
+From PortusGen Require Import StateSpace.
+From Coq Require Import String.
+Open Scope string_scope.
+Theorem C08_source_cursor_state : impl_fields_Backend = model_fields_Backend.
+Proof. exact fields_Backend_tie. Qed.
+Print Assumptions C08_source_cursor_state.
+Theorem C08_source_cursor_locals : impl_mut_backend_next = model_mut_backend_next.
+Proof. exact mut_backend_next_tie. Qed.
+Print Assumptions C08_source_cursor_locals.
+Theorem C08_source_shared_state_ipc : nth 2 impl_shared_state_tokens "" = "src/ipc/mod.rs: AtomicBool".
+Proof. exact shared_state_ipc_mod. Qed.
+Print Assumptions C08_source_shared_state_ipc.
